@@ -158,7 +158,8 @@ pub fn payload_family(tier: &str, rng: &mut Rng) -> Vec<Vec<u8>> {
     }
     for l in [8191usize, 8192, 8193, 65535, 65536, 65537, 70000 - 16] {
         v.push(vec![0x55; l]);
-        if tier == "thorough" {
+        if tier == "thorough" && l * 11 / 7 + 24 <= 70000 {
+            // (one escape per 7 payload bytes: the frame must still fit the largest instantiated ArrayBuf)
             v.push((0..l).map(|i| [0x1b, 0x1b, 0x1b, 0x1b, 0x1b, 0x00, 0x55][i % 7]).collect());
         }
     }
